@@ -25,7 +25,8 @@ SPEC = {
             "by +-h and +-h/2, each point on a fresh module replaying the same history; applied force + Richardson-extrapolated "
             "dE/dx must vanish within 1e-6 of the largest force in the case. A case is distinct by its 6-tuple and non-trivial when "
             "at least one checked coordinate has a non-zero force or energy derivative; cases configured to have zero energy, "
-            "rejected configurations, constant variables and near-singular coordinates are counted separately. Second part (path dependence): 8 orientation-type components x 3 rotation axes x 5 (thorough 8) two-step histories in which the rigid body turns through or near 180 degrees (the quaternion follows the previous step by continuity) x a harmonic restraint; forces compared with central differences of the energy, every difference evaluation replaying the same history",
+            "rejected configurations, constant variables and near-singular coordinates are counted separately. Second part (path dependence): 8 orientation-type components x 3 rotation axes x 5 (thorough 8) two-step histories in which the rigid body turns through or near 180 degrees (the quaternion follows the previous step by continuity) x a harmonic restraint; forces compared with central differences of the energy, every difference evaluation replaying the same history"
+            " Later additions: pair-list components also evaluated on a step that rebuilds the list; coordNum and selfCoordNum nested in linearCombination.",
     "assumptions": ["finite alphabet of reals: three 13/16-atom geometries (one base set, two rotated+perturbed copies), two reference "
                     "sets, one mass table (plus unit masses), one charge table, one cell; nothing is claimed for other coordinates",
                     "energy derivative by central finite differences (h=1e-3 and 5e-4 A, Richardson); a coordinate whose two "
